@@ -138,6 +138,18 @@ PROPS = {
                 "distinct_nontrivial = distinct op lines.",
         "explanation": "theorems: predicates = set semantics; degrading the region to the storage depth is exact for intersection and inclusion for every region; counterexample for the original flooring",
     },
+    "C16": {
+        "needs_bins": True,
+        "bin_features": "moc-set/verif_hooks",
+        "trusted_base": COMMON_TB + ["kill points: cargo feature verif_hooks of moc-set (std::process::abort at a named point); what survives a kill is what the OS page cache holds (MAP_SHARED stores visible at once, BufWriter content only after flush)"],
+        "assumptions": COMMON_ASSUME + ["power loss / write-back ordering is out of scope", "only `kill` (abort) at a point is exercised, not `pause`: a reader started at the boundary sees the same file as after a kill there",
+            "the effect model covers `append`; chgstatus (single in-place word stores) and purge (temp file + rename) are covered by the fault-point runs on the real binary only"],
+        "rule": "every named point between two visible effects of append (6 points), chgstatus (1) and purge (3) x repetitions with small and large (19 kB > BufWriter capacity) new MOCs, after a "
+                "history make + chgstatus removed: the updater is aborted at the point, then: list / extract of every listed live id / query must succeed and return the right MOCs, the listing "
+                "must be the one before or after the update, a second updater must be refused while the lock exists, and after removing the stale lock (+ tmp) a new append must succeed and every "
+                "MOC be right. All of it is direct observation of the real binary (op line = point reached). distinct_nontrivial = distinct (update, point) pairs.",
+        "explanation": "theorems on the effect-order model of append: every prefix of the repaired order is reader-consistent with listing before|after, WF preserved, the original order is inconsistent after the meta store",
+    },
 }
 
 
